@@ -126,6 +126,25 @@ impl Ctx {
                     continue;
                 }
             }
+            if self.cfg.layout.global_slots && i + 32 <= m.len() {
+                // one-hot 32-byte scalar (secp256k1 stub layout)
+                let w = &m[i..i + 32];
+                let nz: Vec<usize> = (0..32).filter(|j| w[*j] != 0).collect();
+                if nz.len() == 1 && w[nz[0]].count_ones() == 1 {
+                    let p = (31 - nz[0]) * 8 + w[nz[0]].trailing_zeros() as usize;
+                    if p >= 64 && (p - 64) % 4 == 0 {
+                        if let Some(h) = self.slot_gens[0].get((p - 64) / 4).copied() {
+                            if !raw.is_empty() {
+                                shape.push(Piece::Lit(core::mem::take(&mut raw)));
+                            }
+                            shape.push(Piece::Term(TAG_S));
+                            args.push(h);
+                            i += 32;
+                            continue;
+                        }
+                    }
+                }
+            }
             raw.push(m[i]);
             i += 1;
         }
